@@ -74,8 +74,8 @@ ApplyParse(m, o, e, obj, step) ==
       f2 == IF f1 = Ok /\ obj.implKnown /\ impl # phi0 THEN F("parse.ast", step, phi0, impl) ELSE Ok IN
   R(ParseF(m, phi0), o, f1 \o f2, 0)
 
-ApplyPastify(m, o, e, step) ==
-  IF CanPastify(m) THEN R(PastifyF(m, {}), o, ExcClass(TRUE, e, "pastify.exc", step), 0)
+ApplyPastify(m, o, e, obj, step) ==
+  IF CanPastify(m) THEN R(PastifyF(m, IF "ltl" \in DOMAIN obj THEN {"ltlDelay"} ELSE {}), o, ExcClass(TRUE, e, "pastify.exc", step), 0)
   ELSE R(m, o, ExcClass(FALSE, e, "pastify.exc", step), 0)
 
 \* expected value of the k-th update: operational model for a non-pastified object; for a pastified one
@@ -225,7 +225,7 @@ Apply(c, e, step) ==
   IF e.a \in {"update", "evaluate"} /\ StatusOf(obj) = "nonint"
   THEN R(m, [o EXCEPT !.dead = TRUE], ExcClass(FALSE, e, "units.nonmultiple", step), 0) ELSE
   CASE e.a = "parse"    -> ApplyParse(m, o, e, obj, step)
-    [] e.a = "pastify"  -> ApplyPastify(m, o, e, step)
+    [] e.a = "pastify"  -> ApplyPastify(m, o, e, obj, step)
     [] e.a = "update"   -> ApplyUpdate(m, o, e, step)
     [] e.a = "reset"    -> ApplyReset(m, o, e, step)
     [] e.a = "evaluate" -> ApplyEvaluate(m, o, e, step)
